@@ -311,6 +311,61 @@ func registerIOModels() {
 			return VTuple{}
 		},
 	}
+	hasFix := func(prefix bool) func(c *FnCtx, st *State, in ssa.Instruction, cc *ssa.CallCommon, args []Val) Val {
+		return func(c *FnCtx, st *State, in ssa.Instruction, cc *ssa.CallCommon, args []Val) Val {
+			s, p := args[0].(VStr), args[1].(VStr)
+			k := c.fresh("q.k")
+			start := "0"
+			if !prefix {
+				start = minus(s.Len, p.Len)
+			}
+			if lit, ok := c.eng.litOf[p.Arr]; ok && p.Off == "0" {
+				parts := []string{le(fmt.Sprint(len(lit)), s.Len)}
+				for i := 0; i < len(lit); i++ {
+					parts = append(parts, eq(strAt(s, plus(start, fmt.Sprint(i))), fmt.Sprint(lit[i])))
+				}
+				return VBool{c.define("hasfix", sBool, and(parts...))}
+			}
+			body := fmt.Sprintf("(and (<= %s %s) (forall ((%s Int)) (=> (and (<= 0 %s) (< %s %s)) (= %s %s))))", p.Len, s.Len, k, k, k, p.Len, strAt(s, plus(start, k)), strAt(p, k))
+			return VBool{c.define("hasfix", sBool, body)}
+		}
+	}
+	libModels["strings.HasPrefix"] = &libModel{desc: "HasPrefix(s, p) <=> len(p) <= len(s) and s[:len(p)] == p", apply: hasFix(true)}
+	libModels["strings.HasSuffix"] = &libModel{desc: "HasSuffix(s, p) <=> len(p) <= len(s) and s[len(s)-len(p):] == p", apply: hasFix(false)}
+	libModels["sort.Sort"] = &libModel{
+		desc:   "sort.Sort on a value of type variables: afterwards the slice is non-decreasing in variable.name (the order variables.Less defines) and every element is one of the old elements; other slices of that element type are untouched. Only this instantiation is modelled",
+		writes: []string{"E$P_variable"},
+		apply: func(c *FnCtx, st *State, in ssa.Instruction, cc *ssa.CallCommon, args []Val) Val {
+			iv, _ := args[0].(VIface)
+			sl, ok := c.eng.boxed[iv.Pay].(VSlice)
+			if !ok || typeName(sl.Elem) != "P_variable" {
+				c.abstracted["sort.Sort on an unmodelled type (heap havocked)"]++
+				c.havocHeap(st, "")
+				return VTuple{}
+			}
+			ms := mapSort(2, sInt)
+			E := c.heapGet(st, "E$P_variable", ms)
+			old := c.define("sort.old", sAI, sel(E, sl.Base))
+			na := c.declare("sort.new", sAI)
+			c.eng.needStrLess = true
+			nameOf := func(ref string) VStr {
+				p := VPtr{Root: rootObj, Ref: ref, T: sl.Elem.(*types.Pointer).Elem(), Path: []int{1}}
+				return c.loadQuiet(st, p).(VStr)
+			}
+			x := c.fresh("q.x")
+			perm := c.fresh("sortperm")
+			c.eng.ufDecls[perm] = fmt.Sprintf("(declare-fun %s (Int) Int)", perm)
+			lo, hi := sl.Off, plus(sl.Off, sl.Len)
+			a, b := nameOf(sel(na, plus(x, "1"))), nameOf(sel(na, x))
+			sorted := fmt.Sprintf("(forall ((%s Int)) (! (=> (and (<= %s %s) (< %s (- %s 1))) (not (strless %s %s %s %s %s %s))) :pattern ((select %s %s))))",
+				x, lo, x, x, hi, a.Arr, a.Off, a.Len, b.Arr, b.Off, b.Len, na, x)
+			permF := fmt.Sprintf("(forall ((%s Int)) (! (ite (and (<= %s %s) (< %s %s)) (and (<= %s (%s %s)) (< (%s %s) %s) (= (select %s %s) (select %s (%s %s)))) (= (select %s %s) (select %s %s))) :pattern ((select %s %s))))",
+				x, lo, x, x, hi, lo, perm, x, perm, x, hi, na, x, old, perm, x, na, x, old, x, na, x)
+			c.assume(st, and(sorted, permF))
+			c.heapSet(st, "E$P_variable", ms, sto(E, sl.Base, na))
+			return VTuple{}
+		},
+	}
 	libModels["utf8.DecodeRuneInString"] = &libModel{
 		desc: "DecodeRuneInString(s): len(s) == 0 gives (RuneError, 0); otherwise 1 <= size <= min(4, len(s)); a first byte < 0x80 gives (that byte, 1); otherwise 0x80 <= r <= 0x10FFFF and every one of the size bytes consumed is >= 0x80",
 		apply: func(c *FnCtx, st *State, in ssa.Instruction, cc *ssa.CallCommon, args []Val) Val {
